@@ -11,7 +11,7 @@ NOTE_T3 = ('T3 (bounded): real functions imported from /repo, independent dense 
 
 P('C01', 'other',
   ['props.shape', 'props.ranks', 'props.erank', 'act_one.copy.tt', 'act_one.copy.scalar', 'act_one.get', 'act_two.add.tt_tt',
-   'act_two.mul.num_tt', 'act_two.mul.tt_num', 'act_two.sub.tt_tt', 'act_two.outer', 'tensors.const.plain', 'act_one.mean', 'act_one.sum'], 60,
+   'act_two.mul.num_tt', 'act_two.mul.tt_num', 'act_two.sub.tt_tt', 'act_two.outer', 'tensors.const.plain', 'act_one.mean', 'act_one.sum', 'lemmas.spotcheck', 'lemmas.TTAlg'], 60,
   ['L-SUMPROD (sum over all multi-indices of a product chain = chain of the mode sums)'],
   'Contract-based: get (loop invariant Q = partial chain => result = val(Y,i)), add tensor+tensor (block-core invariant, '
   'inductive chain lemma => wf, shape, ranks add up, val(result,i) = val(Y1,i)+val(Y2,i) for all d, shapes, ranks), '
@@ -26,7 +26,7 @@ P('C01', 'other',
 P('C02', 'other',
   ['svd.matrix_skeleton.abs.l', 'svd.matrix_skeleton.abs.r', 'svd.matrix_skeleton.abs.m', 'svd.matrix_svd',
    'transformation.truncate.eigh', 'transformation.truncate.svd', 'transformation.truncate.eigh.stab',
-   'transformation.truncate.svd.stab', 'transformation.orthogonalize'], 60,
+   'transformation.truncate.svd.stab', 'transformation.orthogonalize', 'lemmas.spotcheck'], 60,
   ['L-ROUND (Oseledets 2011 Thm 3.1/Cor 2.4: orthonormal kept factors + per-step discarded energy <= delta^2 => total error <= sqrt(d-1) delta)',
    'L-EY (Eckart-Young)', 'L-ORTHNORM (orthonormal neighbours preserve the Frobenius norm)'],
   'Contract-based (all inputs): rank selection of matrix_skeleton / matrix_svd against the spec function tail(j)=sum_{t>=j} s_t^2 '
@@ -41,7 +41,7 @@ P('C02', 'other',
 
 P('C03', 'other',
   ['svd.matrix_skeleton.abs.l', 'svd.matrix_skeleton.abs.r', 'svd.matrix_skeleton.abs.m', 'svd.matrix_skeleton.rel.l',
-   'svd.matrix_skeleton.rel.r', 'svd.matrix_skeleton.rel.m', 'svd.svd'], 80,
+   'svd.matrix_skeleton.rel.r', 'svd.matrix_skeleton.rel.m', 'svd.svd', 'svd.matrix_svd', 'lemmas.spotcheck'], 80,
   ['L-TTSVD (Oseledets 2011 Thm 2.2)', 'L-EY (Eckart-Young)'],
   'Contract-based (all inputs): matrix_skeleton for all three give_to values and rel on/off: inner size q in [1, max(1,int r)], '
   'q <= min(m,n), discarded tail energy <= e^2 (relative to s_0 when rel) and smallest such q unless the cap binds (induction '
@@ -55,7 +55,7 @@ P('C03', 'other',
 P('C04', 'other',
   ['transformation.orthogonalize_left', 'transformation.orthogonalize_left.inplace', 'transformation.orthogonalize_right',
    'transformation.orthogonalize_right.inplace', 'transformation.orthogonalize', 'transformation.orthogonalize.stab',
-   'core.core_stab'], 100,
+   'core.core_stab', 'lemmas.spotcheck', 'lemmas.TTAlg'], 100,
   ['L-ORTHNORM (pivot core carries the Frobenius norm)'],
   'Contract-based (all d, shapes, ranks, pivots): single-step variants: ValueError iff invalid mode number, in-place changes exactly '
   'the two adjacent cores and returns the argument list, otherwise the argument is untouched; new rank = min(old rank, what the core '
@@ -169,7 +169,7 @@ P('C18', 'other', ['grid.ind_to_poi.uni', 'grid.ind_to_poi.cheb', 'grid.poi_scal
   'Chebyshev grid, grid_flat, cdf_getter.', NOTE_T1 + NOTE_T3, 'deductive VCs over reals + exhaustive floating-point enumeration', [])
 
 P('C19', 'other', ['utils._vector_index_prepare', 'utils._vector_index_expand', 'vectors.vector_delta', 'tensors.delta',
-                   'tensors.const.plain', 'sig.tensors'], 30, [],
+                   'tensors.const.plain', 'sig.tensors', 'lemmas.spotcheck', 'lemmas.TTAlg'], 30, [],
   'Contract-based (all q, all positions): _vector_index_prepare (negative positions counted from the end, ValueError iff out of '
   'range), _vector_index_expand (little-endian bits by loop invariant + inductive lemma 2^k*shr(x,k) <= x < 2^k*(shr(x,k)+1), '
   'ValueError iff not representable), vector_delta / delta element pattern, const without zero list. Bounded: exhaustive positions '
